@@ -1,4 +1,5 @@
 import FastraceModel.Lemmas.Groups
+import FastraceModel.Lemmas.SecondPass
 import FastraceModel.Props.ParamsOk
 
 /-!
@@ -16,10 +17,19 @@ sets of the collect ids whose `commit` is in that batch.
   followed by everything the batch routes to it, in arrival order: every span set whose
   submit was drained no later than the commit is in that one report.
 
-Partial: "every span that *finished* before the root" additionally needs its submit to be
-drained no later than the commit.  Within one thread that follows from FIFO queues (C09);
-across threads it is the consistent-cut hypothesis that the sequential drain does not provide
-(open finding D4) — `C03_whole` states the conclusion relative to what was drained.
+"Every span that *finished* before the root" additionally needs its submit to be drained no
+later than the commit.  Within one thread that follows from FIFO queues (C09).  Across threads
+the queues are drained one after another, and a commit popped from a queue visited late could
+be younger than a submit pushed meanwhile to a queue visited earlier: defect D4, repaired in
+/repo by a **second drain pass** (commits first seen in the second pass wait for the next
+cycle).  `C03_second_pass_collects_all` states what the second pass does, step by step: it
+moves everything the retained receivers' rings hold into this cycle's batch.  Since whatever
+was pushed before a commit was pushed is in its ring before that commit is popped in the first
+pass, hence before the second pass begins, the batch of a cycle contains every command that
+happened-before any commit it processes.  That last temporal step is an argument about the
+real-time order of pushes, exercised by stepped cycles (corpus `C0x/D4-*.txt`), not a Lean
+theorem.  Remaining open finding D14: a command consumed one cycle before its trace's *start*
+(see DESIGN.md §0.3).
 -/
 namespace Fastrace
 
@@ -85,6 +95,47 @@ example :
         (·.map (·.spanId))) = some [1, 2] ∧
     ((cycleProcess id ⟨true, true, []⟩ [.start 0, .submit (.span (raw 1)) tok, .submit (.span (raw 2)) tok]).2.map
         (·.map (·.spanId))) = some [] := by
+  decide
+
+/-! ### the second drain pass (D4 repair) -/
+
+/-- **the second pass collects everything the retained receivers hold**: from the moment the
+    first pass is over (phase `atRx2`, all retained receivers still to revisit, distinct
+    threads), `kept.length` collector steps later the cycle is about to process and report, the
+    first-pass buffer is untouched, every retained ring is empty, and the second-pass buffer
+    holds exactly what those rings held, in registry and ring order.  `Sys.finishCycle` then
+    takes from it everything except commits, which become the next cycle's deferred commits. -/
+theorem C03_second_pass_collects_all (s : Sys) (cs : CycState) (hc : s.cyc = some cs)
+    (hp : cs.phase = .atRx2) (ht : cs.todo2 = keysOf cs.kept) (hn : (keysOf cs.kept).Nodup) (hne : cs.kept ≠ []) :
+    ∃ cs', (stepN cs.kept.length s).cyc = some cs' ∧ cs'.phase = .atReport ∧ cs'.buf = cs.buf ∧
+      cs'.kept = cs.kept.map (fun e => (e.1, { e.2 with q := [] })) ∧
+      cs'.buf2 = cs.buf2 ++ cs.kept.flatMap (·.2.q) := by
+  have hne' : keysOf cs.kept ≠ [] := by
+    cases hk : cs.kept with
+    | nil => exact absurd hk hne
+    | cons a b => simp [keysOf]
+  obtain ⟨cs', e1, e2, e3, e4⟩ := stepN_second_pass (keysOf cs.kept) s cs hc hp ht hne'
+  have hlen : (keysOf cs.kept).length = cs.kept.length := by simp [keysOf]
+  rw [hlen] at e1
+  rw [pass2_collects cs.kept cs.buf2 hn] at e4
+  simp only [Prod.mk.injEq] at e4
+  exact ⟨cs', e1, e2, e3, e4.1, e4.2⟩
+
+/-- what the cycle then does with the two buffers: the batch is the deferred commits, the first
+    pass, and the second pass **without its commits**; those become the deferred commits of the
+    next cycle (when a reporter is installed) -/
+theorem C03_finish_defers_second_pass_commits (s : Sys) (kept : List (Nat × Ring Cmd)) (buf buf2 : List Cmd) :
+    (s.finishCycle kept buf buf2).1.deferred = (if s.coll.hasReporter then commitsOf buf2 else []) ∧
+    (s.finishCycle kept buf buf2).2 =
+      (cycleProcess id s.coll (s.deferred.map Cmd.commit ++ buf ++ buf2.filter (fun c => !c.isCommit))).2 := by
+  simp [Sys.finishCycle]
+
+/-! non-vacuity: two retained receivers, the second pass picks up what arrived meanwhile -/
+example :
+    let cs : CycState := { phase := .atRx2, todo := [], kept := [(0, ⟨[.commit 7], 4, true⟩), (1, ⟨[.start 9], 4, true⟩)],
+                           buf := [], todo2 := [0, 1] }
+    let s : Sys := { Sys.init with cyc := some cs }
+    ((stepN 2 s).cyc.map fun c => (c.buf2, c.kept.map (·.2.q))) = some ([.commit 7, .start 9], [[], []]) := by
   decide
 
 end Fastrace
